@@ -1,4 +1,4 @@
-"""C13 — a dynamic tick array behaves exactly like a fixed one (Engine K): offset arithmetic fully, data movement on 2 scenarios."""
+"""C13 — a dynamic tick array behaves exactly like a fixed one (Engine K): offset arithmetic and codec fully, data movement on enumerated one- and two-operation histories."""
 ID = 'C13'
 LEVEL = 'translation_validation'
 TECHNIQUE = 'Kani/CBMC bounded model checking over the real crate; symbolic bitmaps/contents, concrete positions for data movement'
@@ -7,11 +7,15 @@ FUNCTIONS = [
     'state::DynamicTick Borsh deserialize vs the byte encoding (tag + 7 LE fields)',
     'state::DynamicTickArrayLoader::update_tick + get_tick (one initialisation, slot 63)',
     'pinocchio MemoryMappedDynamicTickArray::update_tick + get_tick (one update, slot 63)',
+    'state::DynamicTickArrayLoader::update_tick x2 + get_tick x2 + bitmap + tag bytes (initialise 70 then 63 below it; thorough: 63 then 70 above it)',
+    'pinocchio MemoryMappedDynamicTickArray::update_tick x2 + get_tick x2 + bitmap + tag bytes (same two histories)',
+    'the next-initialised search of the dynamic array vs the reference (k/src/c10.rs c10_a_dyn_scan_*, run by the C10 check) and the Pinocchio header/offset views vs Anchor (k/src/c12.rs c12_view_dynamic_header)',
 ]
 BOUNDS = [
     'L1 byte_offset: every 128-bit bitmap, every slot 0..=88 (88 = end of encoding => used length 148 + 112*popcount), negative slot',
     'L1 codec: every 113-byte input',
     'L2 scenarios (2): empty array (start 0, spacing 1), ONE update at slot 63 with symbolic contents: Anchor (initialise, reduced rotate model), Pinocchio (initialise or no-op by a symbolic flag); both with the reduced rotate model',
+    'L2 two-operation histories (quick: 1 per implementation, thorough: 2): initialise slot 70 then slot 63 (the insertion moves the bytes of an initialised slot by 112), and 63 then 70; contents of both updates fully symbolic; unwind 800; 40 GB / 900 s per harness (measured ~130 s)',
 ]
 ASSUMPTIONS = [
     'error conversions replaced by code-preserving stubs; message formatting stubbed; From<io::Error> for anchor Error replaced by a stub keeping the kind BorshIoError',
@@ -20,17 +24,18 @@ ASSUMPTIONS = [
 ]
 OUTSIDE = [
     'the three-way comparison Anchor dynamic / Pinocchio dynamic / fixed array on pre-states with several initialised slots (driver l2_scenario is written but NOT RUN as a harness: symbolic execution > 600 s per scenario)',
-    'modify and de-initialise operations (rotate_left), pre-states with initialised slots, slots other than 63, spacings other than 1, the array straddling MIN_TICK_INDEX',
-    'sequences longer than one operation; errors-on-the-same-inputs for update_tick; update_tick_bitmap / is_initialized_tick in isolation (private, no verif wrapper: observed only through the two L2 scenarios)',
+    'de-initialisation below an initialised slot (rotate_left moving data): three-operation histories ran out of 40 GB / 900 s, a byte-built pre-state did not finish either; modify in place; slots other than 63/70, spacings other than 1, the array straddling MIN_TICK_INDEX',
+    'sequences longer than two operations; errors-on-the-same-inputs for update_tick; update_tick_bitmap / is_initialized_tick in isolation (private, no verif wrapper: observed only through the two L2 scenarios)',
     'account realloc (+-112 bytes) and rent movement in tick_array_manager (size decision Anchor == Pinocchio is C12 c12_modify_tick_array_equiv)',
     'next-initialised search dynamic vs fixed: C10 (a)',
 ]
 EXPLANATION = (
     'Offset arithmetic of the encoding is decided for all bitmaps and slots and for both accessors; the Borsh tick codec is decided for all inputs; '
-    'data movement is decided on 2 enumerated single-operation scenarios only. Measured: a flat [u8; 10012] image makes the bitmap symbolic for CBMC (118 M clauses for one '
+    'data movement is decided on the enumerated one- and two-operation histories only. Measured: a flat [u8; 10012] image makes the bitmap symbolic for CBMC (118 M clauses for one '
     'initialisation); splitting the header into its own struct member and keeping every `initialized` flag concrete brings one Anchor initialisation + read-back to 6 s.'
 )
 
 
 def run(ctx):
-    ctx.run_kani(['c13.rs'])
+    # c10.rs: the `prop=C10,C13` harnesses (dynamic-array and fixed-array next-initialised search == the same reference, spacing 8)
+    ctx.run_kani(['c13.rs', 'c10.rs'])
